@@ -76,14 +76,30 @@ class ExcAnalysis:
                 return True
         return False
 
+    def _handler_types(self, htype, depth=0):
+        '''Class names of an `except` clause; a name bound at module level
+        to a tuple of classes (`except BUILDER_ERRORS:`) is expanded.'''
+        if isinstance(htype, ast.Tuple):
+            out = []
+            for elt in htype.elts:
+                out += self._handler_types(elt, depth)
+            return out
+        if isinstance(htype, ast.Name) and depth < 3:
+            for mod in self.program.modules.values():
+                val = mod.toplevel.get(htype.id)
+                if isinstance(val, ast.Tuple) and htype.id.isupper():
+                    return self._handler_types(val, depth + 1)
+        if isinstance(htype, ast.BinOp) and isinstance(htype.op, ast.Add):
+            return self._handler_types(htype.left, depth) + \
+                self._handler_types(htype.right, depth)
+        return [txt(htype).split('.')[-1]]
+
     def caught_by(self, handlers, raised):
         '''Index of the first handler catching the class, or None.'''
         for idx, hdl in enumerate(handlers):
             if hdl.type is None:
                 return idx
-            names = [txt(e).split('.')[-1] for e in hdl.type.elts] \
-                if isinstance(hdl.type, ast.Tuple) else \
-                [txt(hdl.type).split('.')[-1]]
+            names = self._handler_types(hdl.type)
             if any(self.is_subclass(raised, n) for n in names):
                 return idx
         return None
@@ -452,6 +468,19 @@ class ExcAnalysis:
                 par = parents[id(cur)]
                 if isinstance(par, ast.IfExp) and cur is par.body:
                     guarded = True
+                if subject is not None and isinstance(par, ast.BoolOp):
+                    pos = [i for i, v in enumerate(par.values)
+                           if v is cur or cur in list(ast.walk(v))]
+                    earlier = par.values[:pos[0]] if pos else []
+                    truthy = {subject, f'bool({subject})',
+                              f'len({subject}) > 0', f'len({subject})'}
+                    falsy = {f'not {subject}', f'len({subject}) == 0'}
+                    if isinstance(par.op, ast.And) and any(
+                            txt(v) in truthy for v in earlier):
+                        guarded = True
+                    if isinstance(par.op, ast.Or) and any(
+                            txt(v) in falsy for v in earlier):
+                        guarded = True
                 if subject is not None:
                     # `if X:` around, or a guard clause `if not X: return`
                     # earlier in an enclosing block
